@@ -13,7 +13,7 @@ func genWFault(tier string, seed uint64) {
 		"{2,s61,u70000,s62,sc3a922,}", "[-1,[-1,[-1,],],]"}
 	nd := 60
 	if tier == "thorough" {
-		nd = 1500
+		nd = 5000
 	}
 	for i := 0; i < nd; i++ {
 		var toks []string
@@ -54,7 +54,7 @@ func genRFault(tier string, seed uint64) {
 	}
 	nd := 400
 	if tier == "thorough" {
-		nd = 10000
+		nd = 30000
 	}
 	for i := 0; i < nd; i++ {
 		if r.chance(1, 2) {
